@@ -315,11 +315,37 @@ def origin_locals(body, local):
     return orig
 
 
-def value_is_checked(body, local, rej=None):
+def decides_rejection(body, sb, rej):
+    """switch `sb` has one successor from which every path rejects (no accepting exit is reachable without
+    passing a rejecting block) and another from which an accepting exit is still reachable: covers `a || b`
+    chains of rejecting conditions, where no single edge removal makes the shared rejecting block unreachable"""
+    oks = set(ok_exits(body) if returns_result(body) else body.return_blocks()) - set(rej)
+    if not oks:
+        return False
+    must, may = False, False
+    for tgt in body.succ(sb):
+        if tgt in rej:
+            must = True
+            continue
+        r = body.reachable(tgt, removed_blocks=list(rej))
+        if any(o in r for o in oks):
+            may = True
+        elif any(x in body.reachable(tgt) for x in rej):
+            must = True
+    return must and may
+
+
+ERR_PLUMBING = re.compile(r"^core::fmt::|^std::fmt::|::format$|::to_string$|ArrowError::|ParquetError::")
+ERR_ADAPTORS = re.compile(r"::map_err$|::ok_or_else$|::ok_or$|::unwrap_or_else$|::expect$")
+_STOP = lambda n: bool(ERR_PLUMBING.search(n))
+_SELF_ONLY = lambda n: bool(ERR_ADAPTORS.search(n))
+
+
+def value_is_checked(body, local, rej=None, strong=False):
     """does the value in `local` (forward taint, through calls) reach the discriminant of a switch on
     which some rejecting block is control dependent, or the condition of an assert?"""
     rej = reject_blocks(body) if rej is None else rej
-    tainted = body.taint(origin_locals(body, local))
+    tainted = body.taint(origin_locals(body, local), stop_calls=_STOP if strong else None, self_only_calls=_SELF_ONLY if strong else None)
     for sb in range(body.n):
         t = body.term(sb)
         if t["k"] == "assert" and any(x in tainted for x in operand_locals(t["cond"])):
@@ -329,6 +355,8 @@ def value_is_checked(body, local, rej=None):
                 r = body.reachable(0, removed_edges=[(sb, tgt)])
                 if any(x not in r for x in rej):
                     return True
+            if strong and decides_rejection(body, sb, rej):
+                return True
     return False
 
 
@@ -449,3 +477,141 @@ def validation_anchor_total(F, fn, depth=2, seen=None):
             if g is not None:
                 total += validation_anchor_total(F, g, depth - 1, seen)
     return total
+
+
+# ------------------------------------------------------------------ checked inputs of a validator unit
+def _place_reads(body):
+    """every read of a place: (base local, projection, seed local that receives the value) over statements
+    and call arguments; the seed is the assigned local / the call's destination"""
+    out = []
+
+    def places_of_rv(rv):
+        ps = []
+        for op in rvalue_operands(rv):
+            p = op_place(op)
+            if p is not None:
+                ps.append(p)
+        if rv[0] in ("ref", "rawptr", "addr") and len(rv) > 2 and isinstance(rv[2], list):
+            ps.append(rv[2])
+        if rv[0] in ("len", "discr") and isinstance(rv[1], list):
+            ps.append(rv[1])
+        return ps
+    for bl in range(body.n):
+        for s in body.stmts(bl):
+            if s[0] != "a":
+                continue
+            for p in places_of_rv(s[2]):
+                out.append((p[0], p[1], s[1][0], None))
+        t = body.term(bl)
+        if t["k"] == "call":
+            for a in t["args"]:
+                p = op_place(a)
+                if p is not None:
+                    out.append((p[0], p[1], t["dest"][0], None))
+        elif t["k"] == "switch":
+            p = op_place(t["d"])
+            if p is not None:
+                out.append((p[0], p[1], None, bl))
+        elif t["k"] == "assert":
+            p = op_place(t["cond"])
+            if p is not None:
+                out.append((p[0], p[1], None, bl))
+    return out
+
+
+def _proj_fields(proj):
+    out = []
+    for e in proj:
+        if isinstance(e, list) and e[0] == "f":
+            out.append(e[2] if e[2] is not None else str(e[1]))
+        elif isinstance(e, list) and e[0] in ("i", "ci", "sub"):
+            out.append("[]")
+    return out
+
+
+def _strip_ty(t):
+    t = re.sub(r"'[a-z_0-9]+ ?", "", t or "")
+    while t.startswith("&") or t.startswith("mut "):
+        t = t[1:].lstrip() if t.startswith("&") else t[4:]
+    t = re.sub(r"\{closure@[^}]*\}", "{closure}", t)
+    return t
+
+
+def checked_inputs(F, unit_fn):
+    """For a validator and the closures nested in it: which named inputs (arguments, captured variables, and
+    their fields, by debug name) flow into a branch on which a rejecting exit depends (or, in a closure that
+    only computes a predicate, into its result / one of its branches).  Returns {signature: set(names)} where
+    signature = `<type of the variable>#<field path>`."""
+    crate = F.crate(unit_fn["id"].lstrip("<").split("::", 1)[0])
+    fns = [unit_fn]
+    i = 0
+    while i < len(fns):
+        fns += [c for c in crate.closures_of.get(fns[i]["id"], []) if "mir" in c]
+        i += 1
+    res = {}
+    for fn in fns:
+        if "mir" not in fn:
+            continue
+        b = Body(fn)
+        rej = reject_blocks(b)
+        for bl in range(b.n):               # Err(..) built anywhere (closures returning Option<Result<..>>, iterator adaptors)
+            for st in b.stmts(bl):
+                if st[0] == "a" and st[2][0] == "agg" and st[2][1][0] == "adt" and st[2][1][1].endswith("result::Result") and st[2][1][3] == "Err":
+                    rej.add(bl)
+        predicate_only = not rej and fn is not unit_fn
+        if predicate_only and b.locals[0] != "bool":
+            continue
+        named = []
+
+        def arg_derived(l, depth=0):
+            """pattern bindings of a parameter: `|(i, &x)|` copies the tuple fields of the argument into fresh locals"""
+            if 1 <= l <= b.argc:
+                return True
+            ds = b.defs().get(l, [])
+            if depth > 3 or len(ds) != 1 or ds[0][0] != "s" or ds[0][3][0] != "use":
+                return False
+            p = op_place(ds[0][3][1])
+            return p is not None and arg_derived(p[0], depth + 1)
+        for name, pl in b.dbg:
+            if isinstance(pl, list) and isinstance(pl[0], int) and name != "args" and arg_derived(pl[0]):
+                named.append((name, pl[0], pl[1]))
+        if not named:
+            continue
+        cache = {}
+
+        def seed_checked(seed):
+            if seed in cache:
+                return cache[seed]
+            if predicate_only:
+                tainted = b.taint(origin_locals(b, seed), stop_calls=_STOP, self_only_calls=_SELF_ONLY)
+                ok = 0 in tainted or any(b.term(sb)["k"] == "switch" and any(x in tainted for x in operand_locals(b.term(sb)["d"])) for sb in range(b.n))
+            else:
+                ok = value_is_checked(b, seed, rej, strong=True)
+            cache[seed] = ok
+            return ok
+        for base, proj, seed, swb in _place_reads(b):
+            best = None
+            for name, l, dproj in named:
+                if l != base:
+                    continue
+                if proj[:len(dproj)] == dproj and (best is None or len(dproj) > len(best[2])):
+                    best = (name, l, dproj)
+                elif dproj[:len(proj)] == proj and len(proj) < len(dproj) and best is None:
+                    best = (name, l, dproj)         # the reference to a captured variable is read, dereferenced later
+            if best is None:
+                continue
+            rest = _proj_fields(proj[len(best[2]):])
+            if swb is not None:
+                ok = True if predicate_only else (any(any(x not in b.reachable(0, removed_edges=[(swb, tgt)]) for x in rej) for tgt in b.succ(swb)) or decides_rejection(b, swb, rej))
+            else:
+                ok = seed_checked(seed)
+            if not ok:
+                continue
+            ty = b.locals[best[1]]
+            # type of the variable itself: follow the dbg projection for captured variables
+            for e in best[2]:
+                if isinstance(e, list) and e[0] == "f" and len(e) > 3 and e[3]:
+                    ty = e[3]
+            sig = "%s#%s" % (_strip_ty(ty), ".".join(rest))
+            res.setdefault(sig, set()).add(best[0] + ("." + ".".join(rest) if rest else ""))
+    return res
